@@ -62,3 +62,53 @@ Definition site_eqb (a b : string * string * string) : bool :=
 
 Theorem panic_sites_covered : forallb (fun s => existsb (site_eqb s) covered_sites) panic_sites = true.
 Proof. vm_compute. reflexivity. Qed.
+
+(* ---------- codec.Dump is total and prints exactly the bytes it is given ---------- *)
+Section DumpProofs.
+Open Scope list_scope.
+Open Scope nat_scope.
+
+Lemma skipn_cons_nth {A} (l : list A) i x : nth_error l i = Some x -> skipn i l = x :: skipn (S i) l.
+Proof.
+  revert i. induction l as [|a l IH]; intros [|i] H; try discriminate H.
+  - injection H as ->. reflexivity.
+  - cbn [nth_error] in H. cbn [skipn]. rewrite (IH i H). reflexivity.
+Qed.
+
+Lemma skipn_add {A} (l : list A) a b : skipn (a + b) l = skipn b (skipn a l).
+Proof.
+  revert l. induction a as [|a IH]; intros l; [reflexivity|]. destruct l as [|x l]; [now destruct b|]. cbn [Nat.add skipn]. apply IH.
+Qed.
+
+Lemma firstn_add {A} (l : list A) a b : firstn (a + b) l = firstn a l ++ firstn b (skipn a l).
+Proof.
+  revert l. induction a as [|a IH]; intros l; [reflexivity|]. destruct l as [|x l]; [now destruct b|].
+  cbn [Nat.add firstn skipn app]. now rewrite IH.
+Qed.
+
+Lemma dump_cols_spec chunk : forall n i, dump_cols chunk i n = Ok (firstn n (skipn i chunk)).
+Proof.
+  induction n as [|n IH]; intros i; [reflexivity|]. cbn [dump_cols].
+  destruct (Nat.ltb i (length chunk)) eqn:E.
+  - apply Nat.ltb_lt in E. unfold index. destruct (nth_error chunk i) as [x|] eqn:N; [|apply nth_error_None in N; lia].
+    cbn [obind]. rewrite IH. cbn [obind]. rewrite (skipn_cons_nth chunk i x N). reflexivity.
+  - apply Nat.ltb_ge in E. rewrite skipn_all2 by exact E. now rewrite firstn_nil.
+Qed.
+
+Lemma dump_rows_spec m : forall fuel ix, length m - ix < fuel -> exists rows, dump_rows m ix fuel = Ok rows /\ concat rows = skipn ix m.
+Proof.
+  induction fuel as [|f IH]; intros ix H; [lia|]. cbn [dump_rows].
+  destruct (Nat.ltb ix (length m)) eqn:E.
+  - apply Nat.ltb_lt in E. unfold slice.
+    assert ((Nat.leb ix (length m) && Nat.leb (length m) (length m))%bool = true) as -> by (rewrite !(proj2 (Nat.leb_le _ _)); [reflexivity|lia|lia]).
+    assert (firstn (length m - ix) (skipn ix m) = skipn ix m) as -> by (apply firstn_all2; rewrite skipn_length; lia).
+    cbn [obind]. rewrite !dump_cols_spec. cbn [obind]. change (skipn 0 (skipn ix m)) with (skipn ix m).
+    destruct (IH (ix + 16) ltac:(lia)) as (rest & R & C). rewrite R. cbn [obind].
+    eexists. split; [reflexivity|]. cbn [concat]. rewrite C.
+    rewrite <- (firstn_add (skipn ix m) 8 8). rewrite skipn_add. apply firstn_skipn.
+  - apply Nat.ltb_ge in E. exists []. split; [reflexivity|]. cbn [concat]. now rewrite skipn_all2.
+Qed.
+
+Theorem dump_total : forall m, exists rows, dump m = Ok rows /\ concat rows = m.
+Proof. intros m. unfold dump. destruct (dump_rows_spec m (S (length m)) 0 ltac:(lia)) as (rows & R & C). exists rows. split; [exact R|exact C]. Qed.
+End DumpProofs.
